@@ -1,1 +1,2 @@
 import Props.C13
+import Props.C20
